@@ -564,7 +564,14 @@ def run(ctx):
             v = enc_verdict(obs["verdict"])
             problems = []
             if v is None:
-                problems.append("unexpected exception %r" % (obs["verdict"],))
+                # neither complete, nor a failure the worker attributes to the scheduler's report, nor a requeue:
+                # the worker did not follow the scheduler's verdict at all on this response sequence -> a failing
+                # input of the property itself (C28-r4: KeyError on the first report after a requeue)
+                out.failures.append(Failure(
+                    case=case, observed=obs, kind="spec", note="worker raised outside the verdict language",
+                    expected="complete / failed-with-the-scheduler's-report / requeued, as the response sequence dictates; "
+                             "got %r" % (obs["verdict"],)))
+                continue
             jid = re.search(r"\d+", case["sbatch"][1])
             jid = jid.group() if jid else None
             for c in obs["calls"][1:]:
